@@ -535,10 +535,6 @@ def verbosity_regions_pure(fn, gname='of_verbosity'):
                 if i.op == 'call' and i.callee in PRINT_CALLS:
                     continue
                 return False, i, n
-    # any other use of the global (store, argument) is not a "print control"
-    for i in fn.all_insts():
-        if i.op == 'store' and term_mentions_global(tt.term(i.ops[1]), gname) and tt.term(i.ops[1])[0] in ('global', 'goff'):
-            return False, i, n
     return True, None, n
 
 
